@@ -496,6 +496,20 @@ def rule_alloc(c, prog, g, dreach):
     c.floor(R, n, 25, "allocation sites reachable from decoders")
 
 
+def rule_entities(c, prog, R="C13.alloc"):
+    """XML: text the document defines itself (DTD entities) must not multiply the memory the reader needs"""
+    fns = [f for f in prog.lib_fns() if f.body is not None and f.crate == "rbx_xml" and any(x.get("k") in ("Call", "MethodCall") and re.search(r"xml::reader::(config::)?ParserConfig2?::(new|default)", core.callee(x) or "") for x in core.walk_fn(f))]
+    if not fns:
+        raise core.AnchorMissing("no xml-rs ParserConfig is built in rbx_xml")
+    for f in fns:
+        inst = f"{f.path}|entity-expansion"
+        setters = {x["m"] for x in core.walk_fn(f) if x.get("k") == "MethodCall"}
+        if setters & {"max_entity_expansion_length", "max_entity_expansion_depth", "allow_multiple_root_elements_and_no_dtd", "ignore_dtd", "max_data_length"}:
+            c.ok(R, inst)
+        else:
+            c.violation(R, f"{f.path}|alloc|entity-expansion", f"{f.path} builds the xml-rs parser with its default entity settings: an internal DTD can define an entity of up to a megabyte and the document can refer to it once every few bytes, so a 10 kB file decodes into tens of megabytes of text (memory grows with entity length x references, not with the input size)", f.sp, instance=inst)
+
+
 def rule_rec(c, prog, g, dreach):
     R = "C13.rec"
     c.rule(R, "no call-graph cycle among workspace functions reachable from a decoder (recursion depth would be controlled by the input)")
@@ -924,6 +938,7 @@ def run(c, prog):
     droots, dreach, sroots, sreach = reach_sets(prog, g)
     rule_panic(c, prog, g, dreach)
     rule_alloc(c, prog, g, dreach)
+    rule_entities(c, prog)
     rule_ovf(c, prog, g, dreach)
     rule_rec(c, prog, g, dreach)
     rule_prog(c, prog, g, dreach)
